@@ -48,6 +48,8 @@ func (c *VCtx) ownedByHeld(st *State, obj *Term) bool {
 			for _, f := range m.spec.Owns {
 				if t, _ := c.ownedTarget(st, m, f); t != nil && t.S == obj.S {
 					return true
+				} else if os.Getenv("GOVC_DEBUG") != "" && t != nil {
+					fmt.Fprintf(os.Stderr, "ownedByHeld: %s vs %s\n", t.S, obj.S)
 				}
 			}
 		}
@@ -227,6 +229,16 @@ func (c *VCtx) fieldProtection(heap string) *protection {
 				return &protection{"immutable", sp, true}
 			}
 		}
+		for _, g := range sp.Published {
+			if g == field {
+				return &protection{"published", sp, true}
+			}
+		}
+		for _, g := range sp.Volatile {
+			if g == field {
+				return &protection{"volatile", sp, true}
+			}
+		}
 	}
 	// sub-object field guarded by another type's lock
 	var names []string
@@ -329,8 +341,35 @@ func (c *VCtx) checkAccess(fr *Frame, st *State, l *Loc, write bool, pos token.P
 			return
 		}
 		c.staticObl(kind, desc, false, "write to a field declared immutable after construction")
-	case "atomic":
-		c.staticObl(kind, desc, false, "plain access to a field declared atomic")
+	case "volatile":
+		c.staticObl(kind, desc, true, "")
+	case "published":
+		if isFreshRef(l.Base) && !c.isPublished(l.Base) {
+			c.staticObl(kind, desc, true, "")
+			return
+		}
+		// the object must be typed to find its channel field
+		stT := p.spec
+		tp := c.eng.TPkgs[stT.Pkg].Types.Scope().Lookup(stT.Type)
+		if tp == nil {
+			c.staticObl(kind, desc, false, "cannot resolve type for published field")
+			return
+		}
+		obj := TG(SRef, types.NewPointer(tp.Type()), l.Base.S)
+		sc := &Scope{c: c, vars: map[string]Val{"this": obj}, st: st, old: st, pkg: stT.Pkg}
+		if c.me != nil {
+			sc.vars["me"] = c.me
+		}
+		chE, _ := ParseExpr("this." + stT.PubChan)
+		ch := c.asTerm(c.translate(sc, chE))
+		if write {
+			tokE, _ := ParseExpr(stT.PubToken + "(this) == me")
+			c.prove(kind, desc+": write only by the invocation that holds the publication token, before the channel is closed", st.pc,
+				And(c.translateBool(sc, tokE), Not(c.isClosed(st, ch))), nil)
+		} else {
+			c.prove(kind, desc+": read only after the publishing channel is known to be closed", st.pc, c.isClosed(st, ch), nil)
+		}
+		c.obls[len(c.obls)-1].Props = c.ownProps()
 	case "undeclared":
 		c.staticObl(kind, desc, false, "field of a concurrency-safe type without a declared protection")
 	}
@@ -544,6 +583,9 @@ func (c *VCtx) acquire(fr *Frame, st *State, lock *Term, write bool, pos token.P
 	}
 	if len(h.specs) > 0 && !(h.specs[0].owned && len(st.held) > 1) {
 		c.lastCSEntry = h.specs[0].entry
+	}
+	if fr != nil && len(h.specs) > 0 {
+		fr.csEntry = h.specs[0].entry
 	}
 }
 
@@ -948,21 +990,32 @@ func (c *VCtx) publish(v Val) {
 	}
 	switch x := v.(type) {
 	case *Term:
-		if x.Sort == SRef {
+		if x.Sort == SRef && !c.published[x.S] {
 			c.published[x.S] = true
+			c.publishContents(x.S)
 		}
 	case *FnVal:
 		for _, b := range x.Binds {
 			c.publish(b)
 		}
 	case *Loc:
-		if x.Base != nil {
+		if x.Base != nil && !c.published[x.Base.S] {
 			c.published[x.Base.S] = true
+			c.publishContents(x.Base.S)
 		}
 	case Tuple:
 		for _, e := range x {
 			c.publish(e)
 		}
+	}
+}
+
+// publishContents: what was stored into an object while it was private becomes reachable with it.
+func (c *VCtx) publishContents(key string) {
+	vals := c.storedIn[key]
+	delete(c.storedIn, key)
+	for _, v := range vals {
+		c.publish(v)
 	}
 }
 
